@@ -187,6 +187,8 @@ impl PersisterTask {
                     .await
                     {
                         Ok(bytes_written) => {
+                            #[cfg(feature = "iggy_verif")]
+                            crate::verif::fs_event("log_append_background", &file_path).await;
                             log_file_size.fetch_add(bytes_written, Ordering::AcqRel);
                         }
                         Err(e) => {
